@@ -102,6 +102,7 @@ func stripNoise(s string) string {
 
 var errClasses = []struct{ sub, cls string }{
 	{"error during Run:", "panic"},
+	{"maximum call depth", "callDepth"},
 	{"attempted division by zero", "div0"},
 	{"type mismatch", "typeMismatch"},
 	{"unknown operator", "unknownOperator"},
